@@ -15,7 +15,10 @@ def main():
     sid = sys.argv[1]
     args = sys.argv[2:]
     src = f"/tmp/seeded/{sid}"
-    meta = json.load(open(os.path.join(src, "meta.json")))
+    if "--checks-only" in args:
+        meta = json.load(open(os.path.join(ROOT, "seeded", sid, "meta.json")))
+    else:
+        meta = json.load(open(os.path.join(src, "meta.json")))
     prop = meta["property"]
     if "--prop" in args: prop = args[args.index("--prop") + 1]
     wt = meta.get("worktree", f"/tmp/wt-{sid}")
@@ -41,28 +44,33 @@ def main():
         else:
             try: os.remove(os.path.join(wt, demo_path))
             except OSError: pass
+    checks_only = "--checks-only" in args   # the worktree is gone: only re-run the checks (step 3) and append
+    if checks_only:
+        src_meta = os.path.join(ROOT, "seeded", sid)
+        patch = os.path.join(src_meta, "patch.diff")
     # 2. without the patch the demo passes
-    place_demo()
-    rc, out = sh(demo_cmd, cwd=wt, env=env)
-    confirmed["demo_passes_without_change"] = (rc == 0)
-    remove_demo()
-    # 1. with the patch
-    rc, out = sh(["git", "-C", wt, "apply", patch])
-    confirmed["patch_applies"] = (rc == 0)
-    if "--no-suite" not in args:
-        t0 = time.time()
-        rc, out = sh("cargo test --workspace --no-fail-fast --offline", cwd=wt, env=env, timeout=3600)
-        passed = sum(int(l.split("ok. ")[1].split(" passed")[0]) for l in out.split("\n") if l.startswith("test result: ok."))
-        confirmed["suite_passes_with_change"] = (rc == 0)
-        confirmed["suite_tests_passed"] = passed
-        confirmed["suite_wall_s"] = round(time.time() - t0)
-    place_demo()
-    # re-apply if demo placement reset the file (append case applies on top of the patched file)
-    rc, out = sh(demo_cmd, cwd=wt, env=env)
-    confirmed["demo_fails_with_change"] = (rc != 0)
-    confirmed["demo_failure_excerpt"] = "\n".join([l for l in out.split("\n") if "panicked" in l or "FAILED" in l or "assert" in l][:6])
-    remove_demo()
-    sh(["git", "-C", wt, "checkout", "--", "."])
+    if not checks_only:
+      place_demo()
+      rc, out = sh(demo_cmd, cwd=wt, env=env)
+      confirmed["demo_passes_without_change"] = (rc == 0)
+      remove_demo()
+      # 1. with the patch
+      rc, out = sh(["git", "-C", wt, "apply", patch])
+      confirmed["patch_applies"] = (rc == 0)
+      if "--no-suite" not in args:
+          t0 = time.time()
+          rc, out = sh("cargo test --workspace --no-fail-fast --offline", cwd=wt, env=env, timeout=3600)
+          passed = sum(int(l.split("ok. ")[1].split(" passed")[0]) for l in out.split("\n") if l.startswith("test result: ok."))
+          confirmed["suite_passes_with_change"] = (rc == 0)
+          confirmed["suite_tests_passed"] = passed
+          confirmed["suite_wall_s"] = round(time.time() - t0)
+      place_demo()
+      # re-apply if demo placement reset the file (append case applies on top of the patched file)
+      rc, out = sh(demo_cmd, cwd=wt, env=env)
+      confirmed["demo_fails_with_change"] = (rc != 0)
+      confirmed["demo_failure_excerpt"] = "\n".join([l for l in out.split("\n") if "panicked" in l or "FAILED" in l or "assert" in l][:6])
+      remove_demo()
+      sh(["git", "-C", wt, "checkout", "--", "."])
     # 3. checks against a scratch copy of /repo with the patch
     sc = f"/var/tmp/verif-seeded-{sid}"
     shutil.rmtree(sc, ignore_errors=True)
@@ -87,12 +95,16 @@ def main():
     # 4. keep
     dst = os.path.join(ROOT, "seeded", sid)
     os.makedirs(dst, exist_ok=True)
-    shutil.copy(patch, os.path.join(dst, "patch.diff"))
-    shutil.copy(os.path.join(src, "demo.rs"), os.path.join(dst, "demo.rs"))
+    if not checks_only:
+        shutil.copy(patch, os.path.join(dst, "patch.diff"))
+        shutil.copy(os.path.join(src, "demo.rs"), os.path.join(dst, "demo.rs"))
     old = {}
     if os.path.exists(os.path.join(dst, "meta.json")):
         old = json.load(open(os.path.join(dst, "meta.json")))
-    meta["confirmed_by_me"] = confirmed if "--no-suite" not in args else dict(old.get("confirmed_by_me", {}), **confirmed)
+    if checks_only:
+        meta = dict(old)
+    else:
+        meta["confirmed_by_me"] = confirmed if "--no-suite" not in args else dict(old.get("confirmed_by_me", {}), **confirmed)
     meta["checks"] = old.get("checks", []) + checks
     meta["detected"] = any(c["exit"] == 1 and c["violation_lines"] for c in meta["checks"])
     json.dump(meta, open(os.path.join(dst, "meta.json"), "w"), indent=1)
